@@ -9,6 +9,8 @@ package liquid
 // frame check decides, for all symbolic payloads, on every store of every path.
 
 import (
+	"bytes"
+
 	nd "github.com/osteele/liquid/zz_verifnd"
 )
 
@@ -154,4 +156,54 @@ func VerifC04ResultsOwned() {
 	out5, _ := t1.Render(b)
 	nd.Assert(string(out5) == keep1, "caller-writes-do-not-reach-later-renders")
 	nd.Reach("C04.resultsowned")
+}
+
+// VerifC04EntryPoints: the parse-and-render entry points write nothing shared either: not the engine
+// (no "last template" kept on it), not package-level state.
+func VerifC04EntryPoints() {
+	e := NewEngine()
+	src := []string{"a{{ n }}{% if n %}x{% endif %}", "{% for i in (1..2) %}{{ i }}{% endfor %}", "{{ n | plus: 1 }}"}[nd.Choice(3)]
+	b := Bindings{"n": nd.IntIn(0, 9)}
+	ref, rerr := NewEngine().ParseAndRenderString(src, b)
+	nd.Assert(rerr == nil, "entry-point-reference-renders")
+	nd.BeginRender()
+	var out string
+	var err SourceError
+	switch nd.Choice(3) {
+	case 0:
+		out, err = e.ParseAndRenderString(src, b)
+	case 1:
+		var bs []byte
+		bs, err = e.ParseAndRender([]byte(src), b)
+		out = string(bs)
+	case 2:
+		var buf bytes.Buffer
+		err = e.ParseAndFRender(&buf, []byte(src), b)
+		out = buf.String()
+	}
+	nd.EndRender()
+	nd.Assert(err == nil && out == ref, "entry-point-output")
+	nd.Reach("C04.entrypoints")
+}
+
+// VerifC04OtherEngine: configuring another engine — creating it, registering filters and tags on it —
+// while this one is in use writes nothing this one reads: afterwards this engine still applies the
+// standard filter, and reports the other engine's own filter as undefined.
+func VerifC04OtherEngine() {
+	e1 := NewEngine()
+	tpl, perr := e1.ParseString("{{ 'a' | upcase }}")
+	tpl2, perr2 := e1.ParseString("{{ 'a' | shout }}")
+	nd.Assert(perr == nil && perr2 == nil, "parses")
+	nd.BeginRender()
+	e2 := NewEngine()
+	e2.RegisterFilter("upcase", func(s string) string { return "other:" + s })
+	e2.RegisterFilter("shout", func(s string) string { return s + "!" })
+	nd.EndRender()
+	o1, err1 := tpl.RenderString(Bindings{})
+	_, err2 := tpl2.RenderString(Bindings{})
+	nd.Assert(err1 == nil && o1 == "A", "other-engine-filters-do-not-leak")
+	nd.Assert(err2 != nil, "other-engine-filter-stays-undefined-here")
+	o3, err3 := e2.ParseAndRenderString("{{ 'a' | upcase }}{{ 'a' | shout }}", Bindings{})
+	nd.Assert(err3 == nil && o3 == "other:aa!", "other-engine-uses-its-own-filters")
+	nd.Reach("C04.otherengine")
 }
